@@ -261,6 +261,15 @@ func cmdStress(args []string) int {
 					if err := tree.DeleteVersionsTo(p); err == nil {
 						pinViol = fmt.Sprintf("DeleteVersionsTo(%d) succeeded while an export of version %d was open", p, p)
 					}
+					// a rollback over the pinned version (it is the first one the rollback would delete)
+					// must be refused as well; the failed call leaves the older version loaded
+					if err := tree.LoadVersionForOverwriting(p - 1); err == nil {
+						if pinViol == "" {
+							pinViol = fmt.Sprintf("LoadVersionForOverwriting(%d) succeeded while an export of version %d was open", p-1, p)
+						}
+					} else if _, err := tree.LoadVersion(v); err != nil {
+						report("LoadVersion after a refused rollback: " + err.Error())
+					}
 					// a second export of the same version, closed twice (allowed), must not release the first pin
 					ex2, err2 := im.Export()
 					if err2 == nil {
